@@ -159,6 +159,31 @@ def run(ck, prop, tier, loads, dumper):
             if dumper(quote=qo)(d2) != t1:
                 ck.violation("C01|quoting|second-pass|%s" % sh, "formatting the written text again changes it (content %r, output quote %s)" % (s, qo),
                              {"text": src, "printed": t1, "content": s})
+        if prop in ("C01", "C02") and sq:
+            # the content as the KEY of a key-value pair
+            lex = QCH[sq] + s + QCH[sq]
+            src = "MAP\n  WEB\n    METADATA\n      %s 'kv'\n      'zz' 'it\\'s \\\"plain\\\"'\n    END\n  END\nEND\n" % lex
+            ck.count()
+            try:
+                d = loads(src)
+                md = d["web"]["metadata"]
+                ks = [k for k in md.keys() if not (isinstance(k, str) and k.startswith("__"))]
+            except Exception as ex:  # noqa: BLE001
+                ks = None
+                if prop == "C02":
+                    ck.violation("C02|quoting|kvkey|rejected|%s" % sh, "a quoted key %r of a key-value block is rejected (%s)" % (lex, type(ex).__name__), {"text": src, "content": s})
+            if ks is not None and prop == "C02" and (ks[:1] != [s] or md[s] != "kv"):
+                ck.violation("C02|quoting|kvkey|value|%s" % sh, "the key %r is loaded as %r" % (lex, ks[:1]), {"text": src, "content": s})
+            if ks is not None and prop == "C01" and b["representable"]:
+                try:
+                    t1 = dumper(quote=qo)(d)
+                    md2 = loads(t1)["web"]["metadata"]
+                    ks2 = [k for k in md2.keys() if not (isinstance(k, str) and k.startswith("__"))]
+                    ok = ks2 == ks and md2[s] == "kv"
+                except Exception as ex:  # noqa: BLE001
+                    ok = False
+                if not ok:
+                    ck.violation("C01|quoting|kvkey|%s" % sh, "round trip does not keep the key %r of a key-value block (output quote %s)" % (s, qo), {"text": src, "content": s})
         if prop in ("C01", "C02") and b["tailfree"]:
             # accepted by the reader as the last q-quoted string of a text (TailLaw)
             lex = qo + s + qo
